@@ -131,17 +131,22 @@ def exec_enum_trees(trace, ctx):
         perturbed = rng.random() < 0.5
         factor = {(min(i, j), max(i, j)): rng.uniform(0.7, 1.3) for i, j in edges} if perturbed else None
         table = bonds_table(n, edges, pos, factor)
+        # the same molecule and the same moved atom again, with ANOTHER bond table (another conformation of the species):
+        # the result must follow the table handed over now, not one seen earlier
+        factor2 = {(min(i, j), max(i, j)): rng.uniform(0.7, 1.3) for i, j in edges}
+        table2 = bonds_table(n, edges, pos, factor2)
         for moved in range(n):
-            d = np.array(gen.unit_vec(rng)) * rng.choice([0.01, 0.1, 1.0, 10.0])
-            before = pos.copy()
-            arr = pos.copy()
-            try:
-                out = move_mol_atom(arr, table, atom_index=moved, displ=d.copy())
-            except Exception as e:
-                ctx.violate("C07", "move-raised", f"tree #{idx} on {n} atoms, moved atom {moved}: {type(e).__name__}: {e}")
-                return
-            check_move(ctx, before, arr, table, moved, d, out, tree=True)
-            ctx.steps += 1
+            for tb in ((table, table2) if (idx + moved) % 3 == 0 else (table,)):
+                d = np.array(gen.unit_vec(rng)) * rng.choice([0.01, 0.1, 1.0, 10.0])
+                before = pos.copy()
+                arr = pos.copy()
+                try:
+                    out = move_mol_atom(arr, tb, atom_index=moved, displ=d.copy())
+                except Exception as e:
+                    ctx.violate("C07", "move-raised", f"tree #{idx} on {n} atoms, moved atom {moved}: {type(e).__name__}: {e}")
+                    return
+                check_move(ctx, before, arr, tb, moved, d, out, tree=True)
+                ctx.steps += 1
         ctx.counters["labelled_trees"] += 1
     ctx.probe("enumerated_tree_batch")
     ctx.nontrivial = True
@@ -195,6 +200,11 @@ def exec_random_graph(trace, ctx):
             ctx.steps += 1
             if rng.random() < 0.5 and np.all(np.isfinite(out)) and tree and factor is None:
                 pos = np.array(out)         # walk on: later moves start from a moved configuration
+            elif rng.random() < 0.3:
+                # same connectivity, another bond table (the species in another conformation)
+                factor = {(min(i, j), max(i, j)): rng.uniform(0.7, 1.3) for i, j in edges}
+                table = bonds_table(n, edges, pos, factor)
+                ctx.probe("bond_table_changed_between_moves")
     ctx.nontrivial = True
     ctx.op("random_graph", ("tree" if tree else "cyclic") + ":" + trace["table"])
     ctx.sig.append((n, len(edges)))
@@ -211,9 +221,22 @@ def exec_chi2(trace, ctx):
     fixed = np.array([[rng.uniform(-sp, sp) for _ in range(3)] for _ in range(nf)])
     mob0 = np.array([[rng.uniform(-sp, sp) for _ in range(3)] for _ in range(nm)])
     restr = [tuple(r) for r in trace["restraints"]]
-    fixed_in = fixed.copy()
+    form = trace["seed"] % 5
+    if form == 1:
+        # integer-valued fixed coordinates handed over as an INTEGER array (as the library's own tests do); the mobile
+        # configurations evaluated later are ordinary floats
+        fixed = np.round(fixed * (4.0 / sp)).astype(float)
+        if len({tuple(r) for r in fixed}) < nf:
+            fixed = fixed + np.arange(nf)[:, None] * np.array([7.0, 0.0, 0.0])
+        ctx.probe("integer_typed_fixed_array")
+    fixed_in = fixed.astype(np.int64) if form == 1 else (fixed.astype(np.float32).astype(np.float64) if form == 2 else fixed.copy())
+    if form == 2:
+        fixed = fixed_in.copy()
+        fixed_in = fixed_in.astype(np.float32)         # exactly representable: same values, other dtype
+        ctx.probe("float32_fixed_array")
     try:
-        calc = Chi2Calculator(fixed_in, mob0.copy(), [tuple(r) for r in restr] if restr else (None if rng.random() < 0.5 else []))
+        calc = Chi2Calculator(fixed_in, mob0.copy(),
+                              [tuple(r) for r in restr] if restr else (None if rng.random() < 0.5 else []))
     except Exception as e:
         ctx.violate("C08", "chi2-construct-raised", f"Chi2Calculator({nf}x{nm}, {len(restr)} restraints) raised {type(e).__name__}: {e}")
         return
@@ -299,6 +322,18 @@ def exec_rotations(trace, ctx):
     from gaddlemaps import rotation_matrix
     rng = _r.Random(trace["seed"])
     tol = 1e-12
+    # a third of the batches hands over ONE float64 buffer that is overwritten in place between calls (a row of an array
+    # of axes, an axis precessed in place): the matrix must depend on the values, not on the identity of the argument
+    reuse = trace["seed"] % 3 == 0
+    buf = np.zeros(3)
+
+    def arg(v):
+        if not reuse:
+            return np.array(v, dtype=float, copy=True)
+        buf[:] = v
+        return buf
+    if reuse:
+        ctx.probe("axis_buffer_reused_in_place")
     for rep in range(40):
         norm = 10 ** rng.uniform(-6, 6)
         c = rng.random()
@@ -309,18 +344,18 @@ def exec_rotations(trace, ctx):
             axis = np.array(gen.unit_vec(rng)) * norm
         theta = rng.choice([rng.uniform(-20, 20), rng.uniform(-20, 20), 0.0, math.pi, -math.pi, 2 * math.pi, rng.uniform(-1e-8, 1e-8)])
         try:
-            M = np.array(rotation_matrix(axis.copy(), theta), dtype=float)
+            M = np.array(rotation_matrix(arg(axis), theta), dtype=float)
         except Exception as e:
             ctx.violate("C17", "rotation-raised", f"rotation_matrix({axis.tolist()}, {theta}) raised {type(e).__name__}: {e}")
             return
         check_rotation(ctx, axis, theta, M, tol)
         ctx.steps += 1
         try:
-            Mneg = np.array(rotation_matrix(axis.copy(), -theta), dtype=float)
+            Mneg = np.array(rotation_matrix(arg(axis), -theta), dtype=float)
             b = rng.uniform(-20, 20)
-            Mb = np.array(rotation_matrix(axis.copy(), b), dtype=float)
-            Mab = np.array(rotation_matrix(axis.copy(), theta + b), dtype=float)
-            Mscaled = np.array(rotation_matrix(axis * rng.choice([1e-3, 7.0, 1e4]), theta), dtype=float)
+            Mb = np.array(rotation_matrix(arg(axis), b), dtype=float)
+            Mab = np.array(rotation_matrix(arg(axis), theta + b), dtype=float)
+            Mscaled = np.array(rotation_matrix(arg(axis * rng.choice([1e-3, 7.0, 1e4])), theta), dtype=float)
             Mlist = np.array(rotation_matrix(list(axis), theta), dtype=float) if rng.random() < 0.2 else M
         except Exception as e:
             ctx.violate("C17", "rotation-raised", f"rotation_matrix raised {type(e).__name__}: {e}")
@@ -342,6 +377,10 @@ def exec_frames(trace, ctx):
     from gaddlemaps import calcule_base
     rng = _r.Random(trace["seed"])
     mon = FrameMonitor(ctx, calcule_base)
+    reuse = trace["seed"] % 3 == 0
+    pbuf = np.zeros((3, 3))
+    if reuse:
+        ctx.probe("points_buffer_reused_in_place")
     for rep in range(40):
         scale = 2.0 ** rng.randint(-10, 10)
         kind = rng.choice(["generic", "axis", "diagonal", "intdir", "numerically", "coincident_middle", "generic"])
@@ -365,7 +404,10 @@ def exec_frames(trace, ctx):
             pts = [a, a.copy(), b]
         order = rng.random()
         try:
-            if order < 0.5:
+            if reuse:
+                pbuf[:] = np.array(pts)
+                mon(pbuf if order < 0.5 else [pbuf[0], pbuf[1], pbuf[2]])
+            elif order < 0.5:
                 mon([p.copy() for p in pts])
             else:
                 mon(np.array(pts))
